@@ -180,10 +180,10 @@ pub fn def() -> PropDef {
         abort_possible: false,
         parts: |tier| {
             vec![
-                part("chunk_history", tier.pick(1_500, 40_000), (0u8..4, 0u8..4, proptest::collection::vec(step(), 1..10)).prop_map(|(max_chunk_count, max_message_size, steps)| Case { max_chunk_count, max_message_size, steps }), history),
+                part("chunk_history", tier.pick(1_500, 240_000), (0u8..4, 0u8..4, proptest::collection::vec(step(), 1..10)).prop_map(|(max_chunk_count, max_message_size, steps)| Case { max_chunk_count, max_message_size, steps }), history),
                 part(
                     "codec_prefix",
-                    tier.pick(20_000, 400_000),
+                    tier.pick(20_000, 2_400_000),
                     (prop_oneof![Just(0u32), Just(8196u32), Just(65535), Just(327_675), 64u32..1_000_000], any::<i8>(), proptest::bool::weighted(0.3), any::<u8>(), any::<u8>()).prop_map(|(m, d, huge, present, kind)| {
                         let declared = if huge { [u32::MAX, 0x7fff_ffff, 1 << 24, 1 << 30][d.unsigned_abs() as usize % 4] } else { (m as i64 + d as i64).max(70) as u32 };
                         FrameCase { max_message_size: m, declared, present, kind }
